@@ -26,6 +26,10 @@ type Case struct {
 	Kind    string       `json:"kind"`              // evm | kv | mixed | empty: transactions of the source chain
 	Changes []Change     `json:"changes,omitempty"` // validator-set changes of the source chain
 	Peers   []PeerScript `json:"peers"`
+	// Repeat > 1: the sync phase is run up to that many times (a fresh syncing node each time,
+	// the same source chain and scripts) until a violation shows. Generated cases have 1; replay
+	// files of violations that depend on goroutine scheduling inside the node use more.
+	Repeat int `json:"repeat,omitempty"`
 }
 
 // ---- known findings: signatures and the tamperings that trigger them -------------------------
@@ -40,6 +44,9 @@ const (
 	sigSeenCommit = "switch-to-consensus-dies-on-seen-commit-with-altered-unsigned-fields"
 )
 
+// RedoRequest panics when the block it is to redo has disappeared in the meantime
+const sigRedo = "pool-routine-dies-in-redorequest-after-failed-verification"
+
 // deathSig names the root cause of a death of the syncing node.
 func deathSig(msg, site string) string {
 	switch {
@@ -47,6 +54,8 @@ func deathSig(msg, site string) string {
 		return sigNilCommit
 	case site == "pbft.(*ConsensusState).reconstructLastCommit" && strings.Contains(msg, "Failed to reconstruct LastCommit"):
 		return sigSeenCommit
+	case site == "blockchain.(*BlockPool).RedoRequest" && strings.Contains(msg, "Expected block to be non-nil"):
+		return sigRedo
 	}
 	return "sync-node-dies@" + site
 }
@@ -117,7 +126,7 @@ func genCase(t *rapid.T) Case {
 		c.Changes = append(c.Changes, ch)
 	}
 	np := 1 + g.pick("npeers", 4)
-	attack := g.pick("attack", 5) > 0
+	attack := g.pick("attack", 10) >= 3 // 30% of the cases have honest peers only (delays, order and connection times still vary)
 	for p := 0; p < np; p++ {
 		ps := PeerScript{
 			Seed:           g.pick("seed", 1000),
@@ -139,6 +148,17 @@ func genCase(t *rapid.T) Case {
 				nacts = 1
 			}
 			used := map[int64]bool{}
+			if g.pick("forger", 10) < 3 {
+				// a forger: its own block at some height and a next block that names it as
+				// predecessor and carries precommits for it (made with keys it has)
+				fh := int64(g.among("fh", -1, -1, -2, 1, 2, 3, 4, 5, 6, 7))
+				if fh < int64(c.Blocks) {
+					arg, times, delay := g.pick("arg", 12), g.among("times", 1, 1, 2), g.among("delay", 0, 0, 10, 40)
+					used[fh], used[fh+1] = true, true
+					ps.Acts = append(ps.Acts, Act{H: fh, Kind: "forged-block", Arg: arg, Times: times, DelayMs: delay},
+						Act{H: fh + 1, Kind: "forged-commit", Arg: arg, Times: times, DelayMs: delay})
+				}
+			}
 			for a := 0; a < nacts; a++ {
 				act := Act{
 					// 1..: that height; 0, -1, -2: the source chain's last block, the one before, ...
@@ -177,7 +197,7 @@ func applyExclusions(c *Case, x *h.Ctx) {
 	for p := range c.Peers {
 		var keep []Act
 		for _, a := range c.Peers[p].Acts {
-			if sig := triggers(a); sig != "" && x.IsKnown(sig) && !x.Replaying {
+			if sig := triggers(a); sig != "" && x.IsKnown(sig) && !x.Replaying && os.Getenv("C13_NO_EXCLUDE") == "" {
 				x.Label("excluded:" + sig)
 				continue
 			}
@@ -210,8 +230,19 @@ func (c Case) tampers() bool {
 }
 
 func runCase(c Case, x *h.Ctx) {
+	t0 := time.Now()
+	if os.Getenv("C13_VERBOSE") != "" {
+		cb, _ := json.Marshal(c)
+		fmt.Printf("CASE %s\n", cb)
+		defer func() { fmt.Printf("case took %d ms\n", time.Since(t0).Milliseconds()) }()
+	}
 	applyExclusions(&c, x)
-	base, err := os.MkdirTemp("", "c13-")
+	// node directories on tmpfs when there is one: a node opens ten LevelDBs and syncs them,
+	// which is not this property's subject and costs seconds on a busy disk
+	base, err := os.MkdirTemp("/dev/shm", "c13-")
+	if err != nil {
+		base, err = os.MkdirTemp("", "c13-")
+	}
 	if err != nil {
 		panic("harness: " + err.Error())
 	}
@@ -253,6 +284,9 @@ func runCase(c Case, x *h.Ctx) {
 	if os.Getenv("C13_VERBOSE") != "" {
 		fmt.Println(strings.Join(srcProc.output(), "\n"))
 	}
+	if os.Getenv("C13_VERBOSE") != "" {
+		fmt.Printf("source done at %d ms\n", time.Since(t0).Milliseconds())
+	}
 	src, err := openSource(srcDir)
 	if err != nil {
 		x.Label("harness:source-unreadable")
@@ -283,11 +317,53 @@ func runCase(c Case, x *h.Ctx) {
 		x.Label("harness:source-too-short")
 		return
 	}
+	rep := c.Repeat
+	if rep < 1 {
+		rep = 1
+	}
+	for attempt := 0; attempt < rep; attempt++ {
+		last := attempt == rep-1
+		if syncOnce(c, src, srcDir, filepath.Join(base, fmt.Sprintf("sync%d", attempt)), last, x) {
+			return
+		}
+	}
+}
+
+// syncOnce runs one syncing node against the scripted peers and judges it. It returns true when
+// the case is decided (a violation or known finding was reported, or this was the last attempt).
+func syncOnce(c Case, src *srcChain, srcDir, syncDir string, last bool, x *h.Ctx) (decided bool) {
+	t0 := time.Now()
 	target := src.H - 1 // block h can only be applied once block h+1 is known
+	// labels of an attempt count only if the attempt decides the case
+	var labs []string
+	label := func(f string, a ...any) { labs = append(labs, fmt.Sprintf(f, a...)) }
+	knownHit, nontrivial := false, false
+	fail := func(sig, f string, a ...any) bool {
+		stop := x.Fail(sig, f, a...)
+		if !stop {
+			knownHit = true
+		}
+		return stop
+	}
+	defer func() {
+		decided = x.Failed() || knownHit || last
+		if decided {
+			for _, l := range labs {
+				x.Label(l)
+			}
+			if nontrivial {
+				x.NonTrivial()
+			}
+		}
+	}()
 
 	// 2. the syncing node
-	syncDir := filepath.Join(base, "sync")
 	os.MkdirAll(syncDir, 0o700)
+	defer func() {
+		if os.Getenv("C13_KEEP") == "" {
+			os.RemoveAll(syncDir)
+		}
+	}()
 	budget := 14000
 	if c.silentForever() {
 		budget = 32000
@@ -308,10 +384,10 @@ func runCase(c Case, x *h.Ctx) {
 	default:
 		sy.wait(time.Second)
 		if msg, site := deathOf(sy.output()); msg != "" {
-			x.Fail("sync-node-dies-at-start@"+site, "the syncing node died before any peer connected: %s\n%s", msg, tailLines(sy.output(), 30))
+			fail("sync-node-dies-at-start@"+site, "the syncing node died before any peer connected: %s\n%s", msg, tailLines(sy.output(), 30))
 			return
 		}
-		x.Label("harness:sync-node-did-not-start")
+		label("harness:sync-node-did-not-start")
 		h.Note("C13", "fastsync", "sync node did not start: %s", tailLines(sy.output(), 5))
 		return
 	}
@@ -332,14 +408,13 @@ func runCase(c Case, x *h.Ctx) {
 	}
 	out := sy.output()
 	if os.Getenv("C13_VERBOSE") != "" {
+		fmt.Printf("sync done at %d ms\n", time.Since(t0).Milliseconds())
+	}
+	if os.Getenv("C13_VERBOSE") != "" {
 		fmt.Println(strings.Join(out, "\n"))
 	}
 
 	// what the peers actually served
-	type key struct {
-		h    int64
-		kind string
-	}
 	tamperedAt := map[int64][]string{}
 	servedKinds := map[string]int{}
 	nServed := 0
@@ -383,11 +458,11 @@ func runCase(c Case, x *h.Ctx) {
 		if site == "" {
 			site = "exit-" + strconv.Itoa(sy.exitCode())
 		}
-		if x.Fail(deathSig(msg, site), "the syncing node process died (exit %d): %s\n%s\n--- output tail ---\n%s", sy.exitCode(), msg, ctx, tailLines(out, 40)) {
+		if fail(deathSig(msg, site), "the syncing node process died (exit %d): %s\n%s\n--- output tail ---\n%s", sy.exitCode(), msg, ctx, tailLines(out, 40)) {
 			return
 		}
 	} else if !finished {
-		x.Label("harness:sync-node-hung")
+		label("harness:sync-node-hung")
 		h.Note("C13", "fastsync", "sync node had to be killed: %s", tailLines(out, 5))
 		return
 	}
@@ -397,10 +472,10 @@ func runCase(c Case, x *h.Ctx) {
 	check := func(where string, hgt int64, hash, parts string, total int) bool {
 		m := src.metas[hgt]
 		if m == nil {
-			return x.Fail("stored-block-beyond-source-chain", "%s: the syncing node stored a block at height %d (%s), the source chain ends at %d\n%s", where, hgt, hash, src.H, ctx)
+			return fail("stored-block-beyond-source-chain", "%s: the syncing node stored a block at height %d (%s), the source chain ends at %d\n%s", where, hgt, hash, src.H, ctx)
 		}
 		if !strings.EqualFold(hash, hex.EncodeToString(m.Hash)) || !strings.EqualFold(parts, hex.EncodeToString(m.PartsHeader.Hash)) || total != m.PartsHeader.Total {
-			return x.Fail("stored-block-differs-from-source", "%s: block %d stored by the syncing node is %s parts %s/%d, the source chain's is %X parts %X/%d\n%s",
+			return fail("stored-block-differs-from-source", "%s: block %d stored by the syncing node is %s parts %s/%d, the source chain's is %X parts %X/%d\n%s",
 				where, hgt, hash, parts, total, m.Hash, m.PartsHeader.Hash, m.PartsHeader.Total, ctx)
 		}
 		return false
@@ -414,7 +489,7 @@ func runCase(c Case, x *h.Ctx) {
 	func() {
 		defer func() {
 			if p := recover(); p != nil {
-				x.Fail("sync-store-unreadable", "reading the syncing node's block store after it exited panicked: %v\n%s", p, ctx)
+				fail("sync-store-unreadable", "reading the syncing node's block store after it exited panicked: %v\n%s", p, ctx)
 			}
 		}()
 		bdb := dbm.NewDB("blockstore", "leveldb", filepath.Join(syncDir, "data"))
@@ -427,7 +502,7 @@ func runCase(c Case, x *h.Ctx) {
 			m := st.LoadBlockMeta(hgt)
 			if m == nil {
 				if hgt <= storeHeight {
-					x.Fail("stored-block-missing", "block %d is below the syncing node's store height %d and is not readable\n%s", hgt, storeHeight, ctx)
+					fail("stored-block-missing", "block %d is below the syncing node's store height %d and is not readable\n%s", hgt, storeHeight, ctx)
 					return
 				}
 				continue
@@ -437,7 +512,7 @@ func runCase(c Case, x *h.Ctx) {
 			}
 			// the stored parts really are the block
 			if b := st.LoadBlock(hgt); b == nil || !strings.EqualFold(hex.EncodeToString(b.Hash()), hex.EncodeToString(src.metas[hgt].Hash)) {
-				x.Fail("stored-block-differs-from-source", "block %d in the syncing node's store does not decode to the source's block\n%s", hgt, ctx)
+				fail("stored-block-differs-from-source", "block %d in the syncing node's store does not decode to the source's block\n%s", hgt, ctx)
 				return
 			}
 		}
@@ -446,26 +521,26 @@ func runCase(c Case, x *h.Ctx) {
 		return
 	}
 	if died {
-		x.Label("died(known)")
-		labelServed(x, servedKinds, c)
+		label("died(known)")
+		labelServed(label, servedKinds, c)
 		return
 	}
 	if rep == nil {
-		x.Label("harness:no-report")
+		label("harness:no-report")
 		return
 	}
 
 	// (c) caught up: same store, validator set and application state as the source at that height
 	synced := rep.StoreHeight
-	x.Labelf("peers:%d", len(c.Peers))
-	labelServed(x, servedKinds, c)
+	label("peers:%d", len(c.Peers))
+	labelServed(label, servedKinds, c)
 	if synced >= target {
-		x.Label("synced")
-		x.Labelf("sync-ms:<%d", ((rep.ElapsedMs-1400)/500+1)*500)
+		label("synced")
+		label("sync-ms:<%d", ((rep.ElapsedMs-1400)/500+1)*500)
 	} else {
-		x.Label("not-synced-in-budget")
+		label("not-synced-in-budget")
 		if !c.tampers() {
-			if x.Fail("honest-sync-stalls", "with honest peers only the syncing node reached height %d of %d within %d ms\n%s\n--- output tail ---\n%s", synced, target, budget, ctx, tailLines(out, 15)) {
+			if fail("honest-sync-stalls", "with honest peers only the syncing node reached height %d of %d within %d ms\n%s\n--- output tail ---\n%s", synced, target, budget, ctx, tailLines(out, 15)) {
 				return
 			}
 		}
@@ -473,20 +548,20 @@ func runCase(c Case, x *h.Ctx) {
 	if rep.ValHeight == synced && rep.AppHeight == synced && synced >= 1 && synced < src.H {
 		next := src.metas[synced+1].Header
 		if !strings.EqualFold(rep.ValHash, hex.EncodeToString(next.ValidatorsHash)) {
-			if x.Fail("validator-set-differs-after-sync", "after block %d the syncing node's validator set hashes to %s (%d validators), the source chain's block %d names %X\n%s",
+			if fail("validator-set-differs-after-sync", "after block %d the syncing node's validator set hashes to %s (%d validators), the source chain's block %d names %X\n%s",
 				synced, rep.ValHash, rep.ValSize, synced+1, next.ValidatorsHash, ctx) {
 				return
 			}
 		}
 		if !strings.EqualFold(rep.AppHash, hex.EncodeToString(next.AppHash)) {
-			if x.Fail("app-hash-differs-after-sync", "after block %d the syncing node's application hash is %s, the source chain's block %d records %X\n%s",
+			if fail("app-hash-differs-after-sync", "after block %d the syncing node's application hash is %s, the source chain's block %d records %X\n%s",
 				synced, rep.AppHash, synced+1, next.AppHash, ctx) {
 				return
 			}
 		}
-		x.Label("state-compared")
+		label("state-compared")
 	} else if synced >= target {
-		if x.Fail("state-behind-store-after-sync", "the syncing node's store is at %d, its validator set at %d, its application at %d\n%s", synced, rep.ValHeight, rep.AppHeight, ctx) {
+		if fail("state-behind-store-after-sync", "the syncing node's store is at %d, its validator set at %d, its application at %d\n%s", synced, rep.ValHeight, rep.AppHeight, ctx) {
 			return
 		}
 	}
@@ -497,23 +572,22 @@ func runCase(c Case, x *h.Ctx) {
 	for hgt := range tamperedAt {
 		if hgt <= synced {
 			nt = true
-			x.Label("nt:tampered-height-applied-later")
+			label("nt:tampered-height-applied-later")
 			break
 		}
 	}
 	for _, ch := range src.changes {
 		if ch+1 <= synced {
 			nt = true
-			x.Label("nt:crosses-validator-change")
+			label("nt:crosses-validator-change")
 			break
 		}
 	}
 	if len(src.changes) > 1 {
-		x.Label("source:several-validator-changes")
+		label("source:several-validator-changes")
 	}
-	if nt {
-		x.NonTrivial()
-	}
+	nontrivial = nt
+	return
 }
 
 func sizesOf(s *srcChain) []int {
@@ -524,14 +598,14 @@ func sizesOf(s *srcChain) []int {
 	return out
 }
 
-func labelServed(x *h.Ctx, servedKinds map[string]int, c Case) {
+func labelServed(label func(string, ...any), servedKinds map[string]int, c Case) {
 	for k, n := range servedKinds {
 		if n > 0 {
-			x.Label("served:" + k)
+			label("served:" + k)
 		}
 	}
 	if !c.tampers() {
-		x.Label("all-honest")
+		label("all-honest")
 	}
 }
 
